@@ -73,11 +73,20 @@ META = {
         "R11 no loop-carried values: every local used in a registry entry, a refid store or a fill-in is (re)assigned on every path from "
         "the start of the same loop iteration (a title or id found for one target/link cannot leak into the next). "
         "R3 also requires that the position the reader takes the refid from is filled by the registry's writer with the id docutils "
-        "assigned to the node (node['ids'][...]), not with an id re-computed from the title."
+        "assigned to the node (node['ids'][...]), not with an id re-computed from the title; that a registry hit test may be a conjunction "
+        "`K in R and <conditions on the entry R[K]>` (e.g. the entry's id is still in the tree) whose failure counts as a failed lookup; "
+        "that any other tuple store into the slug registry inside the transform (the title refresh) keeps the (line, id, title) layout; "
+        "that the docutils warning is located by node=refnode (source and line: the link may be in an included file), the pending_xref "
+        "is given the link's source and line, and the '#target' fallback of the miss outcome is decided before the warning's "
+        "system_message is appended to the reference (known finding: it is not). "
+        "R5 also: a name is not dropped from the registry by an attribute test that MyST's own id carriers satisfy (a reference with "
+        "refuri that was given an id) unless the test is restricted to a node class they do not have. "
+        "R12 eval-rst: the names of the scratch document render_restructuredtext parses into are re-registered with the real document "
+        "for every descendant, not only the direct children (known finding: only the direct children are)."
     ),
     "not_decided": (
         "which node a given name resolves to at run time (contents of document.nametypes/nameids/ids and myst_slugs for a concrete "
-        "document); what docutils' PropagateTargets does to a '(name)=' target and which nodes it skips; the skip conditions of the "
+        "document; in particular whether a registered id is still in the tree after a directive discarded content); what docutils' PropagateTargets does to a '(name)=' target and which nodes it skips; the skip conditions of the "
         "registry loop other than the explicit flag (e.g. the indirect-target branch); the Sphinx post-transform that resolves the "
         "pending_xref and decides whether its 'target not found' warning is suppressed by nitpick_ignore(_regex) (C12); how parse_directive_text "
         "merges the additional options of a fence-as-directive (where render_fence turns an attribute id into the directive's name option) with the "
@@ -3079,8 +3088,15 @@ def mutants(corpus: Corpus):
     # ---- R3 ----------------------------------------------------------------
     f = rs.fi
 
+    def member_cmp(if_, reg):
+        """the `K in reg` conjunct of an If's hit test"""
+        for e_, p_ in facts(if_.test, True):
+            if p_ and isinstance(e_, ast.Compare) and len(e_.ops) == 1 and isinstance(e_.ops[0], ast.In) and isinstance(e_.comparators[0], ast.Name) and e_.comparators[0].id == reg:
+                return e_
+        return None
+
     def reg_if(reg):
-        return find_node(f, lambda n: isinstance(n, ast.If) and isinstance(n.test, ast.Compare) and isinstance(n.test.ops[0], ast.In) and isinstance(n.test.comparators[0], ast.Name) and n.test.comparators[0].id == reg)
+        return find_node(f, lambda n: isinstance(n, ast.If) and any(n is b for b in rs.loop.body) and member_cmp(n, reg) is not None)
 
     e_if, s_if = reg_if(rs.explicit), reg_if(rs.slugs)
 
@@ -3235,14 +3251,17 @@ def mutants(corpus: Corpus):
     # ---- R4: slug registry probed with a normalised key ---------------------------------------------------
     if s_if is not None:
         norm_name = find_node(f, lambda n: isinstance(n, ast.Assign) and isinstance(n.targets[0], ast.Name) and _is_normaliser(f)(n.value))
-        sub = find_node(f, lambda n: isinstance(n, ast.Subscript) and isinstance(n.value, ast.Name) and n.value.id == rs.slugs and isinstance(n.ctx, ast.Load))
-        if norm_name is not None and sub is not None and isinstance(s_if.test, ast.Compare):
+        scmp = member_cmp(s_if, rs.slugs)
+        subs = [n for n in rs.body if isinstance(n, ast.Subscript) and isinstance(n.value, ast.Name) and n.value.id == rs.slugs and isinstance(n.ctx, ast.Load)]
+        if norm_name is not None and scmp is not None:
             nm = norm_name.targets[0].id
-            both = splice(tr.src, sub.slice, nm)
-            both = splice(both, s_if.test.left, nm)
+            edits = sorted([scmp.left] + [x.slice for x in subs], key=lambda x: (x.lineno, x.col_offset), reverse=True)
+            both = tr.src
+            for x in edits:
+                both = splice(both, x, nm)
             add("c09-slug-lookup-normalised", R4, tr, both, "slug registry probe")
-        if isinstance(s_if.test, ast.Compare):
-            add("c09-slug-test-lowercased", R4, tr, splice(tr.src, s_if.test.left, _seg(tr, s_if.test.left) + ".lower()"), "slug registry probe")
+        if scmp is not None:
+            add("c09-slug-test-lowercased", R4, tr, splice(tr.src, scmp.left, _seg(tr, scmp.left) + ".lower()"), "slug registry probe")
     # ---- R5: registry filled from a table that carries no explicit flag ----------------------------------------
     if isinstance(lp.target, ast.Tuple) and len(lp.target.elts) == 2 and isinstance(lp.iter, ast.Call) and flt is not None and isinstance(lp.iter.func, ast.Attribute):
         recv = lp.iter.func.value
@@ -3398,6 +3417,8 @@ def mutants(corpus: Corpus):
         a0, a1, a2 = (_seg(tr, x) for x in ref.value.elts)
         add("c09-title-refresh-swaps-line-and-id", R3, tr, splice(tr.src, ref.value, f"({a1}, {a0}, {a2})"), "keeps the slug registry's layout")
     # the liveness filter must not turn a failed hit into a silent drop: explicit hit test loses its priority role when it tests the link
-    if e_if is not None and isinstance(e_if.test, ast.BoolOp):
-        add("c09-explicit-hit-only-for-links-with-text", R3, tr, splice(tr.src, e_if.test, f"{_seg(tr, e_if.test.values[0])} and {rs.var}.children"), "explicit lookup dominates")
+    if e_if is not None:
+        add("c09-explicit-hit-only-for-links-with-text", R3, tr, splice(tr.src, e_if.test, f"{_seg(tr, e_if.test)} and {rs.var}.children"), "explicit lookup dominates")
+        # 6e5f09e: a registry entry whose node a directive discarded is not a hit; without the liveness conjunct nothing in C09's
+        # rules changes (a value question: is the id in the tree) - no revert mutant, see META.not_decided
     return out
